@@ -87,9 +87,9 @@ class Report:
         if nontrivial is not None:
             self.nontrivial.add((rid, nontrivial))
         if sample is not None and len(self.samples) < 40:
-            have = sum(1 for s in self.samples if s.get('rule') == rid)
+            have = sum(1 for s in self.samples if s.get('rule_id') == rid)
             if have < 3:
-                self.samples.append(dict(rule=rid, **sample) if isinstance(sample, dict) else dict(rule=rid, case=sample))
+                self.samples.append({'rule_id': rid, **sample} if isinstance(sample, dict) else {'rule_id': rid, 'case': sample})
 
     def consult(self, *locs: str):
         self.consulted.update(locs)
@@ -101,8 +101,8 @@ class Report:
             raise AnalysisError(f'{rid}: matched {got} {what}, expected at least {minimum} '
                                 f'(anchor moved or idiom no longer recognised)')
 
-    def finding(self, rule: str, key: str, where: str, construct: str, msg: str, **detail):
-        self.findings.append(Finding(self.prop, rule, key, where, construct, msg, detail))
+    def finding(self, rule_id: str, key: str, where: str, construct: str, msg: str, /, **detail):
+        self.findings.append(Finding(self.prop, rule_id, key, where, construct, msg, detail))
 
     def note(self, s: str):
         self.notes.append(s)
